@@ -21,6 +21,7 @@ import ast
 import math
 from typing import Dict, List, Optional, Set, Tuple
 
+import numpy as np
 import sympy as sp
 
 from ..cfg import CFG
@@ -56,6 +57,7 @@ def run(idx: Index, rep: Report, tier: str):
     check_adapt_grow_equals_restart(idx, rep)
     check_term_order_histories(idx, rep, tier)
     check_class_update_histories(idx, rep, tier)
+    check_qmf_based_histories(idx, rep)
 
 
 # ---------------------------------------------------------------------------------------------------
@@ -744,6 +746,9 @@ def _order_folder(idx: Index, rel: str):
     """class folder whose fermionic / qubit operators are the order-aware stand-ins (sa/rules/ofmodel.py): Jordan-Wigner, interleaved spin-orbitals"""
     from ..rules import ofmodel as om
     fo = _class_folder(idx, rel)
+    fo.ctors = dict(fo.ctors)
+    fo.ctors.pop("np.array", None)          # parameter vectors are concrete numpy arrays here, so that comparisons between vectors are decided by their values
+    fo.real_arrays = True
     fo.ctors.update({"FermionOperator": lambda a, k: om.OrdFermionOp(*a, **k), "hermitian_conjugated": lambda a, k: om.hermitian_conjugated(a[0]),
                      "fermion_to_qubit_mapping": lambda a, k: om.jordan_wigner(k["fermion_operator"] if "fermion_operator" in k else a[0]),
                      "get_reference_circuit": lambda a, k: _CircModel([make_gate(["X", [0]], {}), make_gate(["X", [1]], {})]), "print": lambda a, k: None})
@@ -778,7 +783,7 @@ def check_term_order_histories(idx: Index, rep: Report, tier: str):
             return _order_folder(idx, rel).instantiate(cls, [], kw())
 
         def order(a, vec):
-            a.fields["var_params"] = _SizedArr(vec)
+            a.fields["var_params"] = np.array(vec, dtype=float)
             q = _order_folder(idx, rel).call_funcval(_method(idx, a, "_get_qubit_operator", rel), gen_args(a), {})
             return [w for w, _ in q.terms.items()]
         try:
@@ -803,6 +808,24 @@ def check_term_order_histories(idx: Index, rep: Report, tier: str):
         rep.ok(rule, upd, upd.node, text=f"{cname}: term order of the generator for {len(pairs)} vectors with a repeated value ({n} parameters, {len(o0)} words): "
                                           f"{len(witnesses)} change the order without changing the set",
                what="where the order of the operator's terms depends on the parameter values is found by folding the generator", nontrivial=False)
+        # a vector stored through set_var_params and then handed to update_var_params: the circuit must hold it afterwards
+        try:
+            v2 = [0.05 * (k + 1) * (-1) ** (k // 2) for k in range(n)]
+            a = make()
+            _order_folder(idx, rel).call_funcval(_method(idx, a, "build_circuit", rel), [list(base)], {})
+            _order_folder(idx, rel).call_funcval(_method(idx, a, "set_var_params", rel), [list(v2)], {})
+            _order_folder(idx, rel).call_funcval(_method(idx, a, "update_var_params", rel), [list(v2)], {})
+            b = make()
+            _order_folder(idx, rel).call_funcval(_method(idx, b, "build_circuit", rel), [list(v2)], {})
+            sa_, sb_ = a.fields["circuit"].signature(), b.fields["circuit"].signature()
+            same = len(sa_) == len(sb_) and all(x[:3] == y[:3] and x[4] == y[4] and _same_angle(x[3], y[3]) for x, y in zip(sa_, sb_))
+            rep.decide(same, "K8.update-equals-rebuild", upd, upd.node, text=f"{cname}: build(v0), set_var_params(v1), update_var_params(v1) vs a fresh build(v1)",
+                       what="an update writes the given vector into the circuit also when the same vector was stored through set_var_params just before",
+                       reason="the circuit still holds the angles of the earlier vector (the update trusted the stored parameters to describe the circuit)")
+        except Undecidable as e:
+            raise AnalysisError(f"{cname}: set / update history not foldable: {e}")
+        except Raised as e:
+            rep.violation("K8.update-equals-rebuild", upd, upd.node, text=f"{cname}: build, set_var_params, update_var_params", what="a stored vector can be handed to update", reason=f"raises {e.exc_type}")
         for i, j, sg, v in witnesses[:2]:
             label = f"{cname}: build(generic) then update(theta[{j}] = {'-' if sg < 0 else ''}theta[{i}]) vs a fresh build"
             try:
@@ -864,3 +887,86 @@ def check_adapt_grow_equals_restart(idx: Index, rep: Report):
                    what="growing the ansatz operator by operator and restarting it from the recorded operators give the same circuit for the same parameters",
                    reason=f"circuits differ at {diff}")
     rep.floor("ADAPT grow-vs-restart vectors", n, 3)
+
+
+# ---------------------------------------------------------------------------------------------------
+def check_qmf_based_histories(idx: Index, rep: Report):
+    """QCC and ILC carry a mean-field block in front of their own amplitudes.  Their set_var_params / build_circuit / update_var_params / prepare_reference_state
+    are folded as the classes' own methods on an instance put together by the checker (the constructor, which screens generators from a Hamiltonian, is bypassed;
+    the generator list is two fixed Pauli words; the mean-field circuit and the ansatz operator are stand-ins that depend on the parameters they are given):
+    update == rebuild when the mean-field block of the vector changes too; a vector of the wrong length is refused and *not kept*."""
+    import math
+    from ..rules.circuitsem import module_resolver
+    rule = "K8.update-equals-rebuild"
+    AG = "tangelo/toolboxes/ansatz_generator/"
+
+    def qmf_circuit(a, k):
+        params = list(a[0])
+        return _CircModel([make_gate(["RX" if i % 2 == 0 else "RZ", [i // 2]], {"parameter": float(params[i])}) for i in range(len(params))])
+
+    def op_list(a, k):
+        gens, taus = a
+        return [_OpModel({WORDS[j % len(WORDS)]: float(t)}) for j, t in enumerate(taus)]
+    for rel, cname, own, gens_field in ((AG + "qcc.py", "QCC", "n_qcc_params", "dis"), (AG + "ilc.py", "ILC", "n_ilc_params", "acs")):
+        cls = module_resolver(idx, rel)(cname)
+        if cls is None:
+            raise AnalysisError(f"{cname} not resolvable")
+        upd = idx.function(f"{rel}::{cname}.update_var_params")
+        svp = idx.function(f"{rel}::{cname}.set_var_params")
+
+        def folder():
+            fo = _class_folder(idx, rel)
+            fo.ctors = dict(fo.ctors)
+            fo.ctors.pop("np.array", None)
+            fo.real_arrays = True
+            fo.ctors.update({"get_qmf_circuit": qmf_circuit, "build_qcc_qubit_op": lambda a, k: _stand_in_operator([float(x) for x in a[1]], 0), "build_ilc_qubit_op_list": op_list})
+            fo.env["np.pi"] = math.pi
+            return fo
+
+        def make():
+            me = Rec(cname, {"n_qubits": 2, "n_qmf_params": 4, own: 2, "n_var_params": 6, "qmf_var_params": np.array([math.pi, 0., 0., 0.]), gens_field: ["G0", "G1"],
+                             "dis": ["G0", "G1"], "qmf_circuit": None, "qcc_circuit": None, "ilc_circuit": None, "circuit": None, "var_params": None, "pauli_to_angles_mapping": {},
+                             "reference_state": "HF", "supported_reference_state": {"HF"}, "supported_initial_var_params": set(), "var_params_default": "diag",
+                             "max_qcc_gens": None, "max_ilc_gens": None, "rebuild_dis": False})
+            me.cls_val = cls
+            return me
+
+        def call(obj, meth, *args):
+            return folder().call_funcval(_method(idx, obj, meth, rel), list(args), {})
+
+        def sig(obj):
+            return obj.fields["circuit"].signature()
+
+        def same(x_, y_):
+            return len(x_) == len(y_) and all(x[:3] == y[:3] and x[4] == y[4] and _same_angle(x[3], y[3]) for x, y in zip(x_, y_))
+        v0 = [math.pi, 0., 0., 0., 0.3, -0.2]
+        seqs = [[v0, [math.pi, 0., 0., 0., -0.5, 0.7]], [v0, [2.1, 0.4, 0.9, -0.3, 0.25, 0.6]], [v0, [1.0, 0.2, 0.3, 0.4, 0.3, -0.2], [0.5, 0.1, 2.0, 0.0, 0.1, 0.1]]]
+        try:
+            for seq in seqs:
+                a = make()
+                call(a, "build_circuit", list(seq[0]))
+                for v in seq[1:]:
+                    call(a, "update_var_params", list(v))
+                b = make()
+                call(b, "build_circuit", list(seq[-1]))
+                diff = next((f"gate {g}: {x} vs {y}" for g, (x, y) in enumerate(zip(sig(a), sig(b))) if not (x[:3] == y[:3] and _same_angle(x[3], y[3]))), f"{len(sig(a))} vs {len(sig(b))} gates")
+                rep.decide(same(sig(a), sig(b)), rule, upd, upd.node, text=f"{cname}: build{seq[0]} then update{seq[1:]} (mean-field block {'changed' if seq[-1][:4] != seq[0][:4] else 'unchanged'})",
+                           what="after any sequence of updates the circuit equals, gate by gate, the circuit a fresh object builds from the last vector - also when the leading "
+                                "mean-field entries of the vector change", reason=f"updated circuit differs from a rebuilt one at {diff}")
+            for bad in (v0[:-1], v0 + [0.1]):
+                a = make()
+                call(a, "build_circuit", list(v0))
+                kept = np.array(a.fields["var_params"], dtype=float).tolist()
+                try:
+                    call(a, "set_var_params", list(bad))
+                    refused = False
+                except Raised:
+                    refused = True
+                now = np.array(a.fields["var_params"], dtype=float).tolist()
+                rep.decide(refused and now == kept, "K6.length-validation", svp, svp.node, text=f"{cname}.set_var_params with {len(bad)} values where 6 are expected",
+                           what="a vector of any other length than the advertised number of parameters is refused and not kept",
+                           reason="accepted" if not refused else f"refused, but stored: var_params now has {len(now)} entries - a later build_circuit() without argument builds from it")
+        except Undecidable as e:
+            raise AnalysisError(f"{cname}: methods not foldable on the checker-built instance: {e}")
+        except Raised as e:
+            rep.violation(rule, upd, upd.node, text=f"{cname}: build / update history", what="updating the parameters gives the circuit a fresh build gives", reason=f"raises {e.exc_type}")
